@@ -22,6 +22,8 @@ import (
 	"syscall"
 	"time"
 
+	jsonv2 "github.com/go-json-experiment/json"
+
 	"verifsim/core"
 	"verifsim/scen"
 )
@@ -108,6 +110,11 @@ func main() {
 	if d := os.Getenv("VERIF_DIR"); d != "" {
 		verifDir = d
 	}
+	// `format` tag options are behind a process-wide experimental switch; turn
+	// it on for every process of the simulator so that the time/duration/bytes
+	// formats are part of the explored library code (uniformly: replay is
+	// unaffected)
+	jsonv2.ExperimentalGlobalSupportFormatTag(true)
 	switch os.Args[1] {
 	case "check":
 		os.Exit(cmdCheck(os.Args[2:]))
